@@ -33,13 +33,13 @@ impl Flags {
     fn see(&mut self, op: Op) {
         use OpK::*;
         match op.k {
-            Next | NextBack | Nth | NthBack | TakeCount | RevTakeDrop | Exhaust | NextIntoInner => self.pulled = true,
-            Observe | Drop | Forget | Last | Count | Fold | Rfold | ItCollect | CloneProbe | InnerObserve => {
+            Next | NextBack | Nth | NthBack | TakeCount | RevTakeDrop | Exhaust | NextIntoInner | Adapt => self.pulled = true,
+            Observe | Drop | Forget | Last | Count | Fold | Rfold | ItCollect | CloneProbe | InnerObserve | Consume => {
                 if self.pulled {
                     self.nontrivial = true;
                 }
             }
-            ArrToV | VNew | TupToV | VToArr | VToTup | FromIterStub | MFromFlat | MFromNested | MIntoFlat | MIntoNested | MNew | MSwitchLayout | MTranspose => {
+            ArrToV | VNew | TupToV | VToArr | VToTup | FromIterStub | MFromFlat | MFromNested | MIntoFlat | MIntoNested | MNew | MSwitchLayout | MTranspose | VMap | MMapRows => {
                 self.chain += 1;
                 if self.chain >= 2 {
                     self.nontrivial = true;
